@@ -22,7 +22,7 @@ func init() {
 			"Non-trivial+distinct = hash of bitmaps with at least two 1-bits and one 0.",
 		Assumptions: []string{"only 0 <= i < n (outside, the functions panic by design)"},
 		Flavours:    releaseAnd386,
-		Required: []string{"long-run/calls>=100000-per-function", "arguments-in-read-only-memory", "i=n-1", "i%32=31", "i%32=0", "i%32=1", "answer-word!=checkpoint-word", "next/same-word", "next/later-word", "next/skips-empty-words", "next/absent",
+		Required: []string{"long-run/calls>=100000-per-function", "bitmap=2^31-64-bits", "arguments-in-read-only-memory", "i=n-1", "i%32=31", "i%32=0", "i%32=1", "answer-word!=checkpoint-word", "next/same-word", "next/later-word", "next/skips-empty-words", "next/absent",
 			"lane=0", "lane=1", "lane=2", "lane=3", "answer-in-high-byte-of-lane", "answer-in-low-byte-of-lane", "bitmap/no-ones", "ones>=65536", "words>=65536", "gap>=2^31/31-bits"},
 		Families: func(c *mon.Config) []mon.Family {
 			return []mon.Family{
@@ -47,6 +47,7 @@ func init() {
 				{Name: "zoo-long", Env: 4, N: c.Pick(400, 100000), Run: c02ZooLong},
 				{Name: "dense-long", Env: 3, N: c.Pick(6, 300), Run: c02DenseLong},
 				{Name: "huge-sparse", N: c.Pick(1, 6), Run: c02HugeSparse},
+				{Name: "huge-bitmap", NoCold: true, N: b2i(c.Base() != "386"), Run: c02Huge},
 				lrFamily(c02LongRun),
 			}
 		},
@@ -509,4 +510,60 @@ func c02HugeSparse(w *mon.W, idx int) {
 	w.Bucket("gap>=2^31/31-bits")
 	w.Distinct(gen.Hash64(0x5a7, uint64(nbits), uint64(ps[0])))
 	w.Sample(func() interface{} { return mon.D{"nbits": nbits, "ones": len(P), "largest_gap_bits": 90000000} })
+}
+
+// c02Huge (round 12): the largest bitmap for which 64*len(words) - the "no next 1-bit" answer - is still an int32:
+// 2^25-1 words (2^31-64 bits). 1-bits at the head, around 2^30 and in the last words (the last bit of the bitmap too);
+// untouched pages in between. Indexes built by the library; every i.
+func c02Huge(w *mon.W, _ int) {
+	nw := 1<<25 - 1
+	n := int64(nw) * 64
+	words := make([]uint64, nw)
+	var P []int64
+	for p := int64(0); p < 70; p += 2 { // more than 32 ones: several select-index entries
+		P = append(P, p)
+	}
+	P = append(P, 1<<20, 1<<30+5, n-4000, n-129, n-128, n-65, n-64, n-2, n-1)
+	for _, p := range P {
+		words[p>>6] |= 1 << uint(p&63)
+	}
+	w.Op, w.A = "IndexSelect32(huge)", int64(nw)
+	sidx := bitmap.IndexSelect32(words)
+	w.Tick()
+	w.Op = "IndexSelect32R64(huge)"
+	sidx2, ridx := bitmap.IndexSelect32R64(words)
+	w.Tick()
+	if len(sidx) != (len(P)+31)/32 || len(sidx2) != len(sidx) || len(ridx) != nw+1 {
+		w.Fail("Index/shape", mon.D{"nwords": nw, "len_sidx": len(sidx), "len_sidx_r64": len(sidx2), "len_ridx": len(ridx)})
+		return
+	}
+	for k := range sidx {
+		if int64(sidx[k]) != P[32*k] || int64(sidx2[k]) != P[32*k] {
+			w.Fail("IndexSelect32/entry", mon.D{"nwords": nw, "entry": k, "got": sidx[k], "got_r64": sidx2[k], "expected": P[32*k]})
+			return
+		}
+	}
+	if ridx[nw] != int32(len(P)) || ridx[nw-1] != int32(len(P)-3) || ridx[1] != 32 {
+		w.Fail("IndexSelect32R64/rank-entry", mon.D{"nwords": nw, "total": ridx[nw], "expected_total": len(P)})
+		return
+	}
+	for i := range P {
+		ea, eb := int32(P[i]), int32(n)
+		if i+1 < len(P) {
+			eb = int32(P[i+1])
+		}
+		w.Op, w.A = "Select32(huge)", int64(i)
+		a1, b1 := bitmap.Select32(words, sidx, int32(i))
+		w.Op = "Select32R64(huge)"
+		a2, b2 := bitmap.Select32R64(words, sidx2, ridx, int32(i))
+		if a1 != ea || b1 != eb || a2 != ea || b2 != eb {
+			w.Fail("Select/huge-bitmap", mon.D{"nwords": nw, "i": i, "select32": []int32{a1, b1}, "select32r64": []int32{a2, b2}, "expected": []int32{ea, eb}})
+			return
+		}
+		w.Tick()
+	}
+	w.Eval(int64(2*len(P) + 2))
+	w.Bucket("bitmap=2^31-64-bits")
+	w.Distinct(gen.Hash64(0x2b32, uint64(len(P))))
+	w.Sample(func() interface{} { return mon.D{"nwords": nw, "ones": len(P), "what": "indexes built by the library, every i"} })
 }
